@@ -177,7 +177,7 @@ def main(tier: str, seed: int) -> int:
     traces += _run_game(rec, wl2, 4, "wireless_wan_override", pings=[("pc_a", "192.168.2.2"), ("pc_b", "192.168.0.2")])
     chk.add_case("wireless_wan_override")
     # tight wireless channel: capacity of the order of a frame
-    for capb in (icmp * 1.5, 2 * icmp + 1, arq + arp + icmp):
+    for capb in (icmp * 1.5, 2 * icmp + 1, arq - 12, arq, arq + arp - 12, arq + arp + icmp):
         w3 = copy.deepcopy(wl)
         w3["simulation"]["network"]["airspace"] = {"frequency_max_capacity_mbps": {"WIFI_2_4": capb / 1048576.0 * 8.0}}
         traces += _run_game(rec, w3, 3, f"wireless_tight_{capb}", pings=[("pc_a", "192.168.2.2")])
